@@ -60,6 +60,7 @@ func init() {
 			{Kind: "c19", Name: "IN:receipt-pairs", Params: p2},
 			{Kind: "c18", Name: "IN:latency-counts", Params: p3},
 			s2job(pairName(pairReq{"a", "cadd"}, pairReq{"b", "cadd"}), 2, 300),
+			c19concurrent(1, "200", 1), c19concurrent(1, "never", 1), c19concurrent(2, "200", 1),
 		}
 	}), info)
 	check.RegisterProp("C05", plan([]string{"C05"}, []fam{{"entities", 7, 8}, {"modules", 4, 5}}, nil), info)
